@@ -131,6 +131,9 @@ class ExprMixin(ExecBase):
         if v.ty.kind == "enum" and attr == "value":
             yield self.attr_read_pure(v, attr, st), st
             return
+        if v.ty.kind == "ref" and S.RECORDS.get(v.ty.name) is not None and S.RECORDS[v.ty.name].union:
+            yield self.wf(st, self.union_read(v, attr, st)), st
+            return
         if v.ty.kind == "ref":
             rec, fty = S.lookup_field(v.ty.name, attr)
             if rec is not None:
